@@ -18,28 +18,48 @@ Record port := {
   p_closes : nat;              (* how often the device's _close ran *)
   p_sent : list Z;             (* what reached the device's _send *)
   p_autoreset : bool; p_echo : bool;   (* EchoPort: _send appends to the port's own queue *)
-  p_sleeps : nat; p_calls : nat        (* how often sleep() / _receive() ran *)
+  p_sleeps : nat; p_calls : nat;       (* how often sleep() / _receive() ran *)
+  p_faults : list bool                 (* the device's next _send calls: true = raises OSError (nothing left: they succeed) *)
 }.
 Definition set_core (p : port) (closed : bool) (queue : list Z) (script : list action) (closes : nat) (sent : list Z) (sleeps calls : nat) : port :=
   {| p_closed := closed; p_queue := queue; p_script := script; p_closes := closes; p_sent := sent;
-     p_autoreset := p_autoreset p; p_echo := p_echo p; p_sleeps := sleeps; p_calls := calls |}.
+     p_autoreset := p_autoreset p; p_echo := p_echo p; p_sleeps := sleeps; p_calls := calls; p_faults := p_faults p |}.
+Definition set_faults (p : port) (f : list bool) : port :=
+  {| p_closed := p_closed p; p_queue := p_queue p; p_script := p_script p; p_closes := p_closes p; p_sent := p_sent p;
+     p_autoreset := p_autoreset p; p_echo := p_echo p; p_sleeps := p_sleeps p; p_calls := p_calls p; p_faults := f |}.
 
 (* reset_messages(): all_notes_off and reset_all_controllers on the 16 channels, as integer ids 1000 + 2*channel + {0,1} *)
 Definition reset_ids : list Z := flat_map (fun c => [1000 + 2 * Z.of_nat c; 1001 + 2 * Z.of_nat c]) (seq 0 16).
 
-(* _send on an open port *)
-Definition dev_send (p : port) (m : Z) : port :=
-  if p_echo p then set_core p (p_closed p) (p_queue p ++ [m]) (p_script p) (p_closes p) (p_sent p) (p_sleeps p) (p_calls p)
-  else set_core p (p_closed p) (p_queue p) (p_script p) (p_closes p) (p_sent p ++ [m]) (p_sleeps p) (p_calls p).
+(* _send on an open port: false = the device raised OSError and took nothing *)
+Definition dev_send (p : port) (m : Z) : port * bool :=
+  match p_faults p with
+  | true :: f => (set_faults p f, false)
+  | f0 =>
+      let p0 := set_faults p (tl f0) in
+      (if p_echo p0 then set_core p0 (p_closed p0) (p_queue p0 ++ [m]) (p_script p0) (p_closes p0) (p_sent p0) (p_sleeps p0) (p_calls p0)
+       else set_core p0 (p_closed p0) (p_queue p0) (p_script p0) (p_closes p0) (p_sent p0 ++ [m]) (p_sleeps p0) (p_calls p0), true)
+  end.
+(* for msg in msgs: self.send(msg) - stops at the first OSError *)
+Fixpoint send_all (l : list Z) (p : port) : port * bool :=
+  match l with
+  | [] => (p, true)
+  | m :: r => let '(p1, ok) := dev_send p m in if ok then send_all r p1 else (p1, false)
+  end.
 
-(* close(): once; with autoreset the reset messages are sent first *)
+(* close(): once; with autoreset the reset messages are sent first (an OSError from the device ends the reset and is swallowed);
+   the device is released whatever happened *)
 Definition close (p : port) : port :=
   if p_closed p then p
-  else let p1 := if p_autoreset p then fold_left dev_send reset_ids p else p in
+  else let p1 := if p_autoreset p then fst (send_all reset_ids p) else p in
        set_core p1 true (p_queue p1) (p_script p1) (S (p_closes p1)) (p_sent p1) (p_sleeps p1) (p_calls p1).
 
 Definition send (p : port) (m : Z) : port * res unit :=
-  if p_closed p then (p, Raise ValueError) else (dev_send p m, Ok tt).
+  if p_closed p then (p, Raise ValueError)
+  else let '(p1, ok) := dev_send p m in (p1, if ok then Ok tt else Raise OSError).
+(* reset(): nothing on a closed port *)
+Definition reset (p : port) : port * res unit :=
+  if p_closed p then (p, Ok tt) else let '(p1, ok) := send_all reset_ids p in (p1, if ok then Ok tt else Raise OSError).
 
 (* one call of _receive: consumes the next action of the script (nothing left: returns None) *)
 Definition dev_receive (p : port) : port * option Z :=
@@ -127,7 +147,7 @@ Fixpoint take_pending (n : nat) (fuel : nat) (p : port) : port * res (list Z) :=
   end.
 
 Inductive pop_ :=
-| PSend (m : Z) | PReceive (block : bool) | PPoll | PIterPending | PIterate (limit : nat) | PClose | PWith (m : Z) | PDel.
+| PSend (m : Z) | PReceive (block : bool) | PPoll | PIterPending | PIterate (limit : nat) | PClose | PWith (m : Z) | PDel | PReset.
 Inductive pout := ONone_ | OMsg_ (m : option Z) | OList_ (l : list Z) | OErr_ (e : exn).
 Definition port_step (fuel : nat) (p : port) (o : pop_) : port * pout :=
   match o with
@@ -138,6 +158,7 @@ Definition port_step (fuel : nat) (p : port) (o : pop_) : port * pout :=
   | PIterate k => let '(p1, r) := (if p_echo p then take_pending k fuel p else iterate k fuel p) in
                   (p1, match r with Ok l => OList_ l | Raise e => OErr_ e end)
   | PClose | PDel => (close p, ONone_)
+  | PReset => let '(p1, r) := reset p in (p1, match r with Ok _ => ONone_ | Raise e => OErr_ e end)
   | PWith m => let '(p1, r) := send p m in (close p1, match r with Ok _ => ONone_ | Raise e => OErr_ e end)   (* with port: port.send(m) *)
   end.
 Fixpoint port_run (fuel : nat) (p : port) (ops : list pop_) : port * list pout :=
@@ -146,9 +167,9 @@ Fixpoint port_run (fuel : nat) (p : port) (ops : list pop_) : port * list pout :
   | o :: r => let '(p1, x) := port_step fuel p o in let '(p2, xs) := port_run fuel p1 r in (p2, x :: xs)
   end.
 
-Definition new_port (autoreset echo : bool) (script : list action) : port :=
+Definition new_port (autoreset echo : bool) (script : list action) (faults : list bool) : port :=
   {| p_closed := false; p_queue := []; p_script := script; p_closes := 0; p_sent := []; p_autoreset := autoreset; p_echo := echo;
-     p_sleeps := 0; p_calls := 0 |}.
+     p_sleeps := 0; p_calls := 0; p_faults := faults |}.
 
 (* ---- MultiPort: _receive sweeps every open sub-port's pending messages without blocking; receive()'s own loop does the waiting ---- *)
 Fixpoint sweep (fuel : nat) (subs : list port) : list port * list Z :=
